@@ -10,6 +10,9 @@ import Fbr.Lemmas.OvlSimLookup
 import Fbr.Lemmas.OvlSimRO
 import Fbr.Lemmas.OvlOps
 import Fbr.Lemmas.OvlAll
+import Fbr.Lemmas.OvlRm
+import Fbr.Lemmas.OvlCreate
+import Fbr.Thm.C10
 
 namespace Fbr.Thm.C11
 open Fbr.Ovl
@@ -42,16 +45,42 @@ theorem restart_view_eq_live_of_consistent (s : St) (hc : Consistent s) (p : Lis
   rw [consistent_view_is_merge _ h.1, h.2, consistent_view_is_merge s hc]
 
 /-- `restart_view_eq_live`, PARTIAL: after any history of covered operations (`Op.covered`: all
-    non-modifying ones, and open-for-writing / write / chmod / truncate / setxattr / removexattr
-    with their copy-ups) a freshly started overlay over the same directories shows, at every
-    path, exactly what the running instance shows.  Missing: histories containing create, mkdir,
-    mknod, symlink, link, unlink, rmdir (see `C10.view_is_merge_partial`); the restart side is
-    fully proved for those too (`restart_view_is_merge`). -/
+    non-modifying ones and every modifying one except `link` and `rmdir`) a freshly started
+    overlay over the same directories shows, at every path, exactly what the running instance
+    shows.  Missing: histories containing link or rmdir (see `C10.view_is_merge_partial`); the
+    restart side is fully proved for those too (`restart_view_is_merge`). -/
 theorem restart_view_eq_live_partial (d : Disk) (hr : d.RootsOK) (ht : d.TreesOK) (ops : List Op)
     (hops : ∀ op ∈ ops, op.covered = true) (p : List Name) :
     liveView (importFs (run (importFs d) ops).disk) p = liveView (run (importFs d) ops) p := by
   have h0 := import_consistent d hr ht
   exact restart_view_eq_live_of_consistent _ (run_cons ops hops _ h0.1) p
+
+/-- `deleted_stays_deleted` (unlink; PARTIAL in that rmdir is not covered): after a successful
+    unlink — of a file, symlink or special file living in the upper layer, in lower layers, or in
+    both, with or without other layers hiding or showing the name — the path is invisible on
+    disk (`merge`), in the running instance and in a freshly started one.  This is the property
+    the second `fix:` of this engine (da2e768) restored. -/
+theorem deleted_stays_deleted_partial (s : St) (hc : Consistent s) (p : List Name) (r : Reply) (s' : St)
+    (h : runOp (.unlink p) s = .ok r s') :
+    merge s'.disk p.reverse = .none ∧ liveView s' p = .none ∧ liveView (importFs s'.disk) p = .none := by
+  obtain ⟨hm, hc'⟩ := Fbr.Thm.C10.unlink_refines_plain_fs s hc p r s' h
+  refine ⟨hm, ?_, ?_⟩
+  · rw [consistent_view_is_merge s' hc', hm]
+  · rw [restart_view_eq_live_of_consistent s' hc', consistent_view_is_merge s' hc', hm]
+
+/-- `recreated_dir_is_opaque`: when `do_mkdir` makes a directory where the forest had a node (it
+    can only be a whiteout node, otherwise EEXIST) the new upper directory carries the opaque
+    marker — so by `C10.opaque_cuts` nothing of the lower layers can show through it after a
+    restart — and the cache is still valid (so restart = live).  This is the property the first
+    `fix:` of this engine (8653268, F6) restored. -/
+theorem recreated_dir_is_opaque (s : St) (hc : Consistent s) (pp : Path) (n : Name) (mode : Nat)
+    (pm o : MNode) (hpm : s.mem pp = some pm) (hlo : pm.loaded = true) (ho : s.mem (n :: pp) = some o)
+    (s' : St) (h : doCreateLike pp n true (mkChildOf .mkdir n (.dir mode 0 0)) s = .ok () s') :
+    (s'.disk.nodeAt 0 (n :: pp)).isOpaqueDir = true ∧ Consistent s' := by
+  have := doCreateLike_spec pp n true .mkdir (.dir mode 0 0)
+    ⟨rfl, rfl, fun _ => ⟨mode, rfl⟩, fun h => (by cases h)⟩ s hc hpm hlo
+  rw [h] at this
+  exact ⟨this.2 rfl ⟨o, ho⟩, this.1⟩
 
 /-- Copy-up keeps the cache valid: after `copy_node_up(p)` (a file, symlink, special file or
     directory with any chain of missing parent directories) the forest is still exactly what a
@@ -61,5 +90,39 @@ theorem copy_up_keeps_cache (s : St) (hc : Consistent s) (p : Path) :
     (∀ e s', copyNodeUp p s = .err e s' → Consistent s') := by
   have := copyNodeUp_cons p s hc
   exact ⟨fun s' h => this.1 () s' h, fun e s' h => this.2 e s' h⟩
+
+/-- `copy_up_preserves`, at the level of what is written into the upper layer: the entry
+    `copy_symlink_up` / `copy_special_up` / `copy_regfile_up` create has the type, the permission
+    bits, the link target and (after the content write) the content of the lower original; only
+    the `user.x` xattr is dropped (known finding `C10:copy-up:xattr-lost`).  Missing parents are
+    made by `create_upper_dir` with `mkdir(name, st.st_mode)` — `.dir st.mode 0 0` in
+    `createUpperDir`, whose effect on the cache is `copy_up_keeps_cache`. -/
+theorem copy_up_preserves (st : Node) (id : Nat) (L : Layer) (pp : Path) (n : Name) :
+    (∀ t, st = .symlink t → (upperCopy st id) = .symlink t) ∧
+    (∀ i m, st = .other i m → (upperCopy st id) = .other id m) ∧
+    (∀ i m c x L1 L2, st = .file i m c x → hMk L pp n (upperCopy st id) = .ok L1 →
+      hWrite L1 (n :: pp) 0 c = .ok L2 → (∀ q, q ≠ n :: pp → ∀ m' c' x', L q ≠ .file id m' c' x') →
+      L2 (n :: pp) = .file id m c 0) := by
+  refine ⟨fun t h => by rw [h]; rfl, fun i m h => by rw [h]; rfl, ?_⟩
+  intro i m c x L1 L2 hst hmk hwr _
+  rw [hst] at hmk
+  simp only [upperCopy, hMk] at hmk
+  split at hmk
+  · cases hmk
+    simp only [hWrite, Layer.set, if_true] at hwr
+    cases hwr
+    simp [Layer.updFile, Layer.set, pwrite]
+  · cases hmk
+
+/-- `rmdir_clears_upper_whiteouts`, one step of `empty_node_directory`: for a child that is a
+    whiteout node backed by the upper layer, the upper whiteout is deleted (`delete_whiteout`)
+    and the child leaves the forest.  (The whole of `rmdir` is not covered by the cache-validity
+    proof, see `C10.view_is_merge_partial`.) -/
+theorem rmdir_clears_upper_whiteouts_step (L : Layer) (p : Path) (c : Name) (h : L (c :: p) = .whiteout) :
+    ∃ L', hDeleteWhiteout L p c = .ok L' ∧ L' (c :: p) = .absent ∧ ∀ q, q ≠ c :: p → L' q = L q := by
+  refine ⟨L.set (c :: p) .absent, ?_, ?_, ?_⟩
+  · simp [hDeleteWhiteout, h, hUnlink]
+  · simp [Layer.set]
+  · intro q hq; simp [Layer.set, hq]
 
 end Fbr.Thm.C11
